@@ -264,5 +264,8 @@ for _p, (_q, _t) in _EXH.items():
     PROPS[_p]["exhaustive_subspaces"] = {"quick": ["all 2^n received subsets of every listed configuration with n <= %d (the other dimensions are sampled per subset)" % _q],
                                          "thorough": ["all 2^n received subsets of every listed configuration with n <= %d" % _t]}
 for _p in PROPS:
+    _b = PROPS[_p].setdefault("budget_s", {})
+    _b["quick"] = {"C05": 240, "C15": 240, "C13": 240, "C14": 120, "C19": 240, "C20": 240, "C17": 240}.get(_p, 600)
+    PROPS[_p].setdefault("case_timeout_s", 120)
     PROPS[_p]["anchors"] = _ANCH.get(_p, [])
     PROPS[_p]["line_anchors"] = _LINES.get(_p, [])
